@@ -1,9 +1,7 @@
 SPECIFICATION Spec
-CONSTANTS MaxRuns = 3 MaxTouch = 99
-  Scens <- ScenPlain1
-  Settings <- SettingsDefault
+CONSTANTS
+  Plans <- PlansNoReload
   CreatedSetsChanged = TRUE
-  Reuses = {TRUE}
   AutoReload = FALSE
   KeepHistory = FALSE
 VIEW view
